@@ -775,6 +775,49 @@ GROWTH = [
     ("legit-loop-vararg-calls", "local function f() return 1, 2, 3 end local function g(...) return select('#', ...) end local n = 0 for i = 1, 1000000 do n = n + g(f()) end return n"),
 ]
 
+# Runaway recursion whose handlers are CALLABLE VALUES (a table with __call, or a table whose __call is again such a table) instead
+# of functions: metamethods of every kind, comparators, gsub callbacks, iterators, pcall targets.  No limits; each must end in an
+# ordinary error ("stack overflow" / "chain too long"), never in a fatal Go stack overflow.
+CALLABLE_KINDS = {
+    # kind: (binding of the LAST arguments, body of the handler, metatable field or None, initial trigger)
+    "add": ("local a, b = A[n-1], A[n]", "return a + b", "__add", "return x + y"),
+    "sub": ("local a, b = A[n-1], A[n]", "return a - b", "__sub", "return x - 1"),
+    "concat": ("local a, b = A[n-1], A[n]", "return a .. b", "__concat", "return x .. y"),
+    "eq": ("local a, b = A[n-1], A[n]", "return a == b", "__eq", "return x == y"),
+    "lt": ("local a, b = A[n-1], A[n]", "return a < b", "__lt", "return x < y"),
+    "le": ("local a, b = A[n-1], A[n]", "return a <= b", "__le", "return x <= y"),
+    "len": ("local a = A[n]", "return #a", "__len", "return #x"),
+    "unm": ("local a = A[n]", "return -a", "__unm", "return -x"),
+    "bnot": ("local a = A[n]", "return ~a", "__bnot", "return ~x"),
+    "index": ("local t, k = A[n-1], A[n]", "return t[k]", "__index", "return x.k"),
+    "newindex": ("local t, k, v = A[n-2], A[n-1], A[n]", "t[k] = v", "__newindex", "x.k = 1"),
+    "call": ("local t = A[n]", "return 1 + t()", "__call", "return x()"),
+    "close": ("", "return F()", None, "return F()"),
+    "tostring": ("local a = A[n]", "return tostring(a)", "__tostring", "return tostring(x)"),
+    "sort": ("", "table.sort({3, 2, 1}, C) return true", None, "table.sort({3, 2, 1}, C)"),
+    "gsub": ("", "return (string.gsub('a', '.', C))", None, "return (string.gsub('a', '.', C))"),
+    "iter": ("", "for _ in C do end", None, "for _ in C do end"),
+    "pcall": ("", "return select(2, pcall(C)) .. 'x'", None, "return C()"),
+    "index-chain": ("local t, k = A[n-1], A[n]", "return t[k]", "__index", "return z.k"),
+}
+
+
+def callable_programs():
+    out = []
+    for kind, (bind, body, field, trig) in CALLABLE_KINDS.items():
+        for level in (1, 2):
+            src = "local C, F local H = function(...) local A = {...} local n = #A %s %s end " % (bind, body)
+            src += "C = setmetatable({}, {__call = H}) "
+            if level == 2:
+                src += "C = setmetatable({}, {__call = C}) "
+            src += "local mt = {%s} " % (("%s = C" % field) if field else "")
+            src += "local x, y = setmetatable({}, mt), setmetatable({}, mt) local z = setmetatable({}, {__index = setmetatable({}, {__index = x})}) "
+            src += "F = function() local v <close> = setmetatable({}, {__close = C}) end "
+            src += "return (pcall(function() %s end))" % trig
+            out.append(("callable-%s-%d" % (kind, level), src))
+    return out
+
+
 # ----------------------------------------------------------------------------- exploration: coroutine life-cycle abuse
 # program = CTX (where the action runs: body / __close handler(s) / __gc / message handler / nested pcall with pending close)
 #         x VIA (how the action is reached: directly or through a metamethod, iterator, sort comparator, gsub callback, load reader,
@@ -1543,6 +1586,43 @@ def explore(ck, lr, tier):
                          {"kind": "Go!=S", "engine": "lua", "family": "growth", "label": label, "status": res["status"],
                           "message": res.get("msg", "")[:1500], "source": src, "opts": ""})
     panic_inventory(ck)
+
+    # ---- (f) runaway recursion through CALLABLE-VALUE handlers: first pass with Go's stack limit lowered to 32 MB (no other limit);
+    #      a death there is confirmed at the default 1 GB stack (the first two individually, ~25 s each) before it is reported
+    cps = callable_programs()
+    ck.log("callable-handler recursion: %d programs" % len(cps))
+    cpl = ["h%d %s" % (i, lua_hex(src)) for i, (label, src) in enumerate(cps)]
+    cpo = lr.run(cpl, timeout=60, maxstack=32 << 20, mem_kb=4 * 1024 * 1024)
+    confirmed = 0
+    not_repro = set()
+    for i, (label, src) in enumerate(cps):
+        res = parse_lua(cpo[i]) if i < len(cpo) else {"status": "?"}
+        ck.case("callable " + src, True)
+        ck.count("callable:%s" % res["status"])
+        if res["status"] in ("gopanic", "CRASH", "HANG", "?"):
+            kind = label.rsplit("-", 1)[0]
+            if kind in not_repro:
+                ck.count("callable:needs-more-than-32MB-stack")
+                continue
+            if confirmed < 2:
+                o = lr.run([cpl[i]], timeout=300, mem_kb=6 * 1024 * 1024)
+                r1 = parse_lua(o[0])
+                if r1["status"] not in ("gopanic", "CRASH", "HANG", "?"):
+                    ck.count("callable:needs-more-than-32MB-stack")
+                    not_repro.add(kind)        # the deeper chain of the same kind is not re-run at 1 GB
+                    continue
+                confirmed += 1
+                res = r1
+            elif confirmed == 0:
+                continue
+            bad_total += 1
+            if confirmed <= 2 and ck.cov["distribution"].get("viol:callable", 0) < 6:
+                ck.count("viol:callable")
+                ck.violation("runaway recursion through a callable-value handler kills the host: %s -> %s %s" %
+                             (label, res["status"], res.get("msg", "")[:140].replace("\n", " | ")),
+                             {"kind": "Go!=S", "engine": "lua", "family": "callable", "label": label, "status": res["status"],
+                              "message": res.get("msg", "")[:1500], "source": src, "opts": "",
+                              "confirmed_at_default_stack": i < len(cps) and confirmed <= 2})
     ck.cov["bad_outcomes"] = bad_total
 
 
